@@ -85,6 +85,25 @@ def r_f6(x, y=2, *a, **kw):
     return 'f6(%r,%r,%r,%r)' % (_R(x), _R(y), _R(a), _R(sorted(kw.items())))
 
 
+def r_f7(x, y=7.26):
+    return 'f7(%r,%r)' % (_R(x), _R(y))
+
+
+def r_f8(x, *, k=7.26):
+    return 'f8(%r,%r)' % (_R(x), _R(k))
+
+
+def f7(x, y=7.26):
+    # a float default that is not a fixed point of rounding at tol 0 or 1
+    _enter('f7', show((x, y)))
+    return r_f7(x, y)
+
+
+def f8(x, *, k=7.26):
+    _enter('f8', show((x, k)))
+    return r_f8(x, k=k)
+
+
 def f1(x):
     _enter('f1', show((x,)))
     return r_f1(x)
@@ -116,7 +135,10 @@ def f6(x, y=2, *a, **kw):
 
 
 FUNCS = {'f1': (f1, r_f1), 'f2': (f2, r_f2), 'f3': (f3, r_f3),
-         'f4': (f4, r_f4), 'f5': (f5, r_f5), 'f6': (f6, r_f6)}
+         'f4': (f4, r_f4), 'f5': (f5, r_f5), 'f6': (f6, r_f6), 'f7': (f7, r_f7), 'f8': (f8, r_f8)}
+# signature twins: f7 is spelled like f2, f8 like f4 (they differ in the default value only)
+SHAPE = {'f7': 'f2', 'f8': 'f4'}
+DEFAULTS = {'f2': ('y', 2), 'f6': ('y', 2), 'f4': ('k', 1), 'f7': ('y', 7.26), 'f8': ('k', 7.26)}
 VARIADIC = ('f3', 'f6')
 
 
@@ -174,7 +196,7 @@ def gen_config(rng, prop, tier):
         if prop != 'C05':
             maxsize_pos = False       # the positional spelling of 0/None is C05's business
     purge = rng.chance(0.3) and prop != 'C06'
-    fn = rng.weighted([(3, 'f1'), (4, 'f2'), (2, 'f3'), (2, 'f4'), (2, 'f5'), (2, 'f6')])
+    fn = rng.weighted([(3, 'f1'), (4, 'f2'), (2, 'f3'), (2, 'f4'), (2, 'f5'), (2, 'f6'), (1, 'f7'), (1, 'f8')])
     # backend
     labels = [None, None, 'dict', 'dict', 'null', 'file-pkl', 'file-json', 'file-src',
               'dir-pkl', 'dir-json', 'dir-fast', 'dir-z', 'dir-mmap', 'dir-src',
@@ -217,7 +239,7 @@ def gen_config(rng, prop, tier):
            'ignore': None, 'tol': None, 'deep': False}
     if prop == 'C18' and rng.chance(0.35) and not (km['kind'] == 'pickle' and km['arg'] == 'json') \
        and not (label in ('file-src', 'dir-src') and km['kind'] == 'raw'):
-        if fn in ('f2', 'f6') and rng.chance(0.5):
+        if fn in ('f2', 'f6', 'f7') and rng.chance(0.5):
             cfg['ignore'] = rng.choice(['y', 1, ['y'], ['x']])
         elif fn in ('f3',) and rng.chance(0.5):
             cfg['ignore'] = '*'
@@ -237,14 +259,16 @@ def logical_call(rng, fn, pool, tuples_ok):
     """one logical call as bound values; spelled separately"""
     x = rng.choice(pool)
     c = {'x': x}
+    dflt = DEFAULTS.get(fn, (None, None))[1]
+    fn = SHAPE.get(fn, fn)
     if fn in ('f2', 'f6') and rng.chance(0.6):
-        c['y'] = rng.choice(pool[:4] + [2])
+        c['y'] = rng.choice(pool[:4] + [dflt])
     if fn in ('f3', 'f6') and rng.chance(0.4):
         if fn == 'f6' and 'y' not in c:
             c['y'] = 2
         c['a'] = [rng.choice(pool) for _ in range(rng.randint(1, 2))]
     if fn == 'f4' and rng.chance(0.5):
-        c['k'] = rng.choice(pool[:3] + [1])
+        c['k'] = rng.choice(pool[:3] + [dflt])
     if fn in ('f5', 'f6') and rng.chance(0.5):
         names = rng.sample(KW_NAMES, rng.randint(1, 2))
         c['kw'] = [[n, rng.choice(pool[:4])] for n in names]
@@ -254,6 +278,7 @@ def logical_call(rng, fn, pool, tuples_ok):
 def spell(rng, fn, c):
     """choose one of the spellings Python binds identically"""
     args, kw = [], []
+    fn = SHAPE.get(fn, fn)
     if fn == 'f1':
         if rng.chance(0.25):
             kw.append(['x', c['x']])
